@@ -258,11 +258,9 @@ func checkArea(c loopCase) ev.Outcome {
 		o.Finding = "area-side"
 		return o
 	}
+	// containment witnesses (the octahedron family has none)
 	in := c.L.Inside.Pt()
-	if !hasWitness(c.L) {
-		// no witness: compare with the exact parity of crossings instead? not
-		// available without one known point; containment is left to the other families
-	} else if g := l.ContainsPoint(in); g != !c.L.Inverted {
+	if g := l.ContainsPoint(in); hasWitness(c.L) && g != !c.L.Inverted {
 		o.Err = fmt.Sprintf("ContainsPoint(known inside point)=%v, inverted=%v", g, c.L.Inverted)
 		o.Finding = "contains"
 		return o
@@ -355,9 +353,10 @@ func checkArea(c loopCase) ev.Outcome {
 // Centroid tolerance. No documented bound exists, so it is a priori: the
 // library sums TrueCentroid over a fan of triangles; for one triangle the
 // result has size ≈ its area and is computed from the factors θ/sin θ of its
-// three sides, whose rounding error grows like ε·κ² with κ = max θ/sin θ.
-// Tolerance per fan triangle: 20·ε·(|area| + 0.01)·κ²; plus the oracle's
-// 2·ε·perimeter. The fan is the one Loop.surfaceIntegral documents (vertex 0
+// three sides, whose rounding error grows like ε·κ² with κ = max θ/sin θ, and
+// from 2×2 minors of vertex differences of size ≤ perimeter.
+// Tolerance per fan triangle: 20·ε·(|area| + 0.01)·κ² + 4·ε·perimeter·κ; plus
+// the oracle's 2·ε·perimeter of the loop. The fan is the one Loop.surfaceIntegral documents (vertex 0
 // as apex, substitute apexes when a chord would exceed π−1e-5); its control
 // flow is mirrored here only to size the tolerance and label cases — the
 // expected value never depends on it.
@@ -412,7 +411,8 @@ func thetaOverSin(a, b s2.Point) float64 {
 
 func triCentroidTol(t [3]s2.Point) (tol, kappa float64) {
 	kappa = math.Max(thetaOverSin(t[0], t[1]), math.Max(thetaOverSin(t[1], t[2]), thetaOverSin(t[2], t[0])))
-	return 20 * eps * (math.Abs(TriAreaFloat(t[0], t[1], t[2])) + 1e-2) * kappa * kappa, kappa
+	per := float64(t[0].Distance(t[1]) + t[1].Distance(t[2]) + t[2].Distance(t[0]))
+	return 20*eps*(math.Abs(TriAreaFloat(t[0], t[1], t[2]))+1e-2)*kappa*kappa + 4*eps*per*kappa, kappa
 }
 
 // fanCentroidTol returns the tolerance for Loop.Centroid of the vertex list p
@@ -692,7 +692,7 @@ func checkTriangle(c triCase) (o ev.Outcome) {
 	for _, th := range []float64{sab, sbc, sca} {
 		kappa = math.Max(kappa, th/math.Sin(th))
 	}
-	ctol := 20*eps*(absE+1e-2)*kappa*kappa + 2*eps*per
+	ctol := 20*eps*(absE+1e-2)*kappa*kappa + 4*eps*per*kappa + 2*eps*per
 	dcn := tc.Sub(wantC).Norm()
 	o.Ratios["TrueCentroid_err/tol ["+eclass+"]"] = dcn / ctol
 	if tight && dcn > ctol {
@@ -830,7 +830,7 @@ func checkSliver(c sliverCase) (o ev.Outcome) {
 	}
 	// containment: exact truth for triangles; for thin loops any probe farther
 	// than 0.02 rad from every vertex-to-vertex chord is outside the thin side.
-	agree, total := 0, 0
+	total := 0
 	for i, pp := range c.Probes {
 		p := pp.Pt()
 		if !gen.Unit(p) {
@@ -866,9 +866,6 @@ func checkSliver(c sliverCase) (o ev.Outcome) {
 			o.Err = fmt.Sprintf("probe %d: ContainsPoint=%v, truth %v (ccw=%v, Area=%v)", i, g, want, ccw, got)
 			o.Finding = "sliver-contains"
 			return o
-		}
-		if thin && g == (got > 2*math.Pi) {
-			agree++
 		}
 	}
 	o.Counts = map[string]int{"probes_with_truth": total}
@@ -1028,21 +1025,21 @@ func checkPolygon(c polyCase) ev.Outcome {
 
 func init() {
 	ev.Define("turning_angle", ev.Options{
-		Rule: "valid-by-construction loops: regular / star / lattice rectangles / cells inside an 80° cap, and band loops winding once round a pole at latitudes in ±80° (areas 0.1…4π−0.1, exact and near hemispheres, edges up to 180°−1e-7, vertices antipodal to vertex 0), each also reversed; 3…2000 (10000 thorough) vertices. Oracle: per-vertex atan2 of the 320-bit determinant and dot product, signed by the exact (symbolically perturbed) orientation; compared within 11.25εn + oracle 4εn; bit-identical under all/16 sampled rotations; exactly negated by reversal and Invert(); IsNormalized outside the ambiguity band. Non-trivial: area < 1e-10 or > 4π−1e-10, or |turning angle| < 100·max error, or an edge > 179°.",
-		Quick: 16000, Thorough: 600000}, genLoopCase, checkTurning)
+		Rule:  "valid-by-construction loops: regular / star / lattice rectangles / cells inside an 80° cap; band loops winding once round a pole at latitudes in ±80° (areas 0.1…4π−0.1, exact and near hemispheres, edges up to 180°−1e-7, vertices antipodal to vertex 0); octahedron cycles (3…6 quarter-circle edges, vertices ±1e-17…1e-6 off the axes); each also reversed; 3…2000 (10000 thorough) vertices. Oracle: per-vertex atan2 of the exact-integer determinant and dot product, signed by the exact symbolically-perturbed orientation, cross-checked against the area oracle through Gauss–Bonnet; compared within 11.25εn + oracle 4εn; bit-identical under all (n≤17) or 6…16 sampled rotations; exactly negated by reversal, reversal+rotation and Invert(); IsNormalized outside the documented ambiguity band. Non-trivial: area < 1e-10 or > 4π−1e-10, or |turning angle| < 100·max error, or an edge > 179°.",
+		Quick: 16000, Thorough: 500000}, genLoopCase, checkTurning)
 	ev.Define("loop_area", ev.Options{
-		Rule: "same loops. Oracle: Eriksson signed triangle areas (320-bit products, one atan2 each) over a fan about the construction's interior point, Area = sum (+4π when the loop is the inverted one); Area within 11.25εn+8ε+oracle of it (asserted when no edge exceeds 170°, ratio reported otherwise); Area>2π iff truth; ContainsPoint(inside/outside witness); small regular loops to relative 1e-14+4e-16n²; Area+Area(reversed)=4π within 2·11.25εn+4π·1e-15; Invert() equals fresh reversed loop bit-for-bit; all/sampled rotations within twice the bound; Gauss–Bonnet against the library's own TurningAngle. Non-trivial as above.",
-		Quick: 16000, Thorough: 600000}, genLoopCase, checkArea)
+		Rule:  "same loops. Oracle: Eriksson signed triangle areas (exact-integer products, one atan2 each) over a fan about the construction's interior point, Area = sum (+4π when the loop is the inverted one; turning-angle oracle for the witness-less octahedron cycles). Area within 11.25εn+8ε+oracle of it; Area>2π iff truth; ContainsPoint of the inside/outside witnesses; small regular loops to relative 1e-14+4e-16n²; Area+Area(reversed)=4π within 2·11.25εn+4π·1e-15; Invert() equals a fresh reversed loop bit-for-bit; rotations within twice the bound; Gauss–Bonnet against the library's own TurningAngle. Non-trivial as above, or the loop reaches one of the three fan-origin-switch branches of Loop.surfaceIntegral (labels /sw1 /sw2 /sw3).",
+		Quick: 16000, Thorough: 500000}, genLoopCase, checkArea)
 	ev.Define("loop_centroid", ev.Options{
-		Rule: "same loops. Oracle: vector area ½Σθ_i·n̂_i (320-bit cross products, one atan2 per edge). Centroid within an a-priori tolerance 20ε(n/100+Σ|fan areas|)·κ+2ε·perimeter, κ = max θ/sinθ over chords from vertex 0 (asserted for κ<10); |Centroid| ≤ min(area,4π−area); reversed loop gives the negative; rotations agree. Non-trivial as above.",
-		Quick: 10000, Thorough: 400000}, genLoopCase, checkCentroid)
+		Rule:  "same loops. Oracle: vector area ½Σθ_i·n̂_i (exact cross products, one atan2 per edge). Centroid within an a-priori tolerance Σ over the documented fan's triangles of 20ε(|area|+0.01)κ²+4ε·perimeter·κ, κ = max θ/sinθ of the triangle's sides, + 2ε·loop perimeter; |Centroid| ≤ min(area,4π−area); the reversed loop gives the negative (the design's 'agree' is a slip: the integral over the complement is minus the integral over the interior); rotations agree with the oracle. Non-trivial as for loop_area.",
+		Quick: 10000, Thorough: 300000}, genLoopCase, checkCentroid)
 	ev.Define("triangle_measures", ev.Options{
-		Rule: "triangles: exactly coplanar, related tuples, small fat (1e-7…1e-1), needles (1e-15…1e-3), third point within ulps of an edge, one edge 180°−(1e-9…0.03), near-hemisphere, uniform. PointArea, GirardArea within 1e-14 of the Eriksson oracle (edges ≤ 170°; ratios reported per edge class beyond), SignedArea sign = exact orientation, TurnAngle/Angle within 9.25ε+oracle and exactly antisymmetric/symmetric, TrueCentroid against ½Σθn̂, the 3-vertex loop's Area on the side the exact orientation dictates. Non-trivial: exact determinant zero, area < 1e-10, an edge > 179°, or area within 1e-6 of 2π.",
+		Rule:  "triangles: exactly coplanar, related tuples (duplicates/antipodes/ulp neighbours; identical, exactly parallel and antipodal-within-1e-9 pairs discarded), small fat (1e-7…1e-1), needles (1e-15…1e-3), third point within ulps of an edge, one edge 180°−(1e-9…0.03), near-hemisphere, uniform. PointArea and GirardArea within 1e-14 of the Eriksson oracle, small fat triangles to relative 1e-13, SignedArea = exact orientation × PointArea, TurnAngle/Angle within 9.25ε+oracle and exactly antisymmetric/symmetric, TrueCentroid against ½Σθn̂ within 20ε(|area|+0.01)κ²+4ε·perimeter·κ, the 3-vertex loop's Area on the side the exact orientation dictates. Non-trivial: exact determinant zero, area < 1e-10, an edge > 179°, or area within 1e-6 of 2π.",
 		Quick: 60000, Thorough: 3000000}, genTriangle, checkTriangle)
 	ev.Define("sliver_loops", ev.Options{
-		Rule: "degenerate and nearly degenerate loops of 3…10 vertices: exactly coplanar triangles and n-gons, triangles of all the families above, thin lenses about an arc of 1e-6…170° with half-width 0 or 1e-18…1e-3 of the length; validity decided with exact predicates (invalid ones discarded). Truth: orientation from the exact-sign turning-angle oracle, area 0/4π accordingly (fan oracle for thin loops), exact half-sphere test for probes of triangles, far probes for thin n-gons. Area, TurningAngle, IsNormalized, Area(reversed) and ContainsPoint must all agree with it. Non-trivial: thin (Σ|fan areas| < 1e-6).",
-		Quick: 40000, Thorough: 2000000}, genSliver, checkSliver)
+		Rule:  "degenerate and nearly degenerate loops of 3…10 vertices inside a cap (all chords < 170°): exactly coplanar triangles and n-gons, triangles of all the families above, thin lenses about an arc of 1e-6…170° with half-width 0 or 1e-18…1e-3 of the length; validity decided with exact predicates (invalid ones discarded, about half). Truth: orientation from the exact-sign turning-angle oracle, area 0/4π accordingly (fan oracle for thin loops), exact half-sphere test for probes of triangles, probes ≥ 0.02 rad from every edge for thin n-gons. Area, TurningAngle, IsNormalized, Area(reversed) and ContainsPoint must all agree with it. Non-trivial: thin (Σ|fan areas| < 1e-6).",
+		Quick: 40000, Thorough: 1500000}, genSliver, checkSliver)
 	ev.Define("polygon_sums", ev.Options{
-		Rule: "polygons of 1…4 disjoint systems of 1…4 concentric rings (nesting depth known by construction, 8…40/400 vertices per ring, radius 1e-6…0.5), loops handed over in a drawn order. Area and Centroid against the signed sums of the per-ring oracles; bit-equal to the signed sums over Loops(); PolygonFromOrientedLoops with clockwise holes; Invert() gives 4π−area and the negated centroid. Non-trivial: at least one hole and more than one system.",
-		Quick: 6000, Thorough: 200000}, genPolygon, checkPolygon)
+		Rule:  "polygons of 1…4 disjoint systems of 1…4 concentric rings (nesting depth known by construction, 8…40/400 vertices per ring, radius 1e-6…0.5), loops handed over in a drawn order. Area and Centroid against the signed sums of the per-ring oracles; bit-equal to the signed sums over Loops(); PolygonFromOrientedLoops with clockwise holes; Invert() gives 4π−area and the negated centroid. Non-trivial: at least one hole and more than one system.",
+		Quick: 6000, Thorough: 60000}, genPolygon, checkPolygon)
 }
